@@ -142,9 +142,19 @@ def coerce(val, ty):
                 if f is None:
                     raise Unsupported("dict key %r is not a field of %s" % (k, ty))
                 kw[f] = coerce(v, ty.fields[f]).t
+            for f, dv in (getattr(ty, "literal_defaults", None) or {}).items():
+                if f not in kw:
+                    kw[f] = dv() if callable(dv) else dv
             if set(kw) != set(ty.fields):
                 raise Unsupported("dict literal does not give every field of %s" % ty)
             return V(ty, ty.mk(**kw))
+        if isinstance(ty, UnionT):
+            for tag, alt in ty.alts.items():
+                if isinstance(alt, RecT):
+                    try:
+                        return V(ty, ty.mk(tag, coerce(val, alt).t))
+                    except Unsupported:
+                        continue
         raise Unsupported("cannot coerce dict literal to %s" % ty)
     if isinstance(val, PyTup):
         if isinstance(ty, TupleT):
